@@ -50,6 +50,20 @@ def enumerate_cases(tier):
             ops.append(['run', pattern])
         ops += [['wait', 2500], ['estab'], ['send', 'A', 10, 1], ['run', [0, 1] * 8]]
         yield {'cfg': cfg, 'ops': ops}
+    # A slow link (5 octets in flight at most), a bundle of many segments with a second one queued behind it, and the
+    # user terminate() placed after every single scheduler step of the transfer (the window between "last segment of
+    # the first bundle queued" and "link drained" is a few steps wide).
+    # The last entry has segments larger than the 10240-octet chunk the connection layer moves at a time, so that
+    # several whole segments wait in the message buffer (the only way the session layer ever has a backlog).
+    for seg, cap, first, lo, hi in ((3, 5, 30, 0, 120), (1000, 1000, 20000, 0, 120), (65536, 10240, 458752, 120, 300)):
+        cfg = {'a': dict(seg_init=seg, mru=100000, keepalive=0, idle=0), 'b': dict(seg_init=seg, mru=100000, keepalive=0, idle=0),
+               'cap_ab': cap, 'cap_ba': None, 'regime': 'fair', 'priv_ext': False}
+        stride = 1 if tier != 'quick' or seg < 65536 else 3
+        for k in range(lo, hi, stride):
+            ops = [['estab'], ['send', 'A', first, 1], ['send', 'A', 4, 2]]
+            ops += [['run', [i % 7, i % 3]] for i in range(k)]
+            ops += [['term', 'A', 0]]
+            yield {'cfg': cfg, 'ops': ops}
 
 
 def pinned_cases():
